@@ -136,6 +136,13 @@ def apply_(vc):
     dyn2 = vc.new("resonaate.dynamics.special_perturbations:SpecialPerturbations", finite_thrust="KEEP")
     dyn2._applyEvents([np.array([], dtype=object)], [ev], state.copy())
     vc.ensure("O-C15-apply.toggle", dyn2.finite_thrust == "KEEP")
+    # another event of the same agent (an impulse) stops the integrator in the middle of the burn: the thrust stays on, the impulse is applied
+    dv = vc.mat("dv", 6, 1, -1, 1)
+    other = _NS(getStateChange=lambda t, x: dv[:, 0])
+    dyn3 = vc.new("resonaate.dynamics.special_perturbations:SpecialPerturbations", finite_thrust="KEEP")
+    out3 = dyn3._applyEvents([np.array([], dtype=object), np.array([t1], dtype=object)], [ev, other], state.copy())
+    vc.ensure("O-C15-apply.toggle", dyn3.finite_thrust == "KEEP")
+    vc.ensure("O-C15-apply.no-state-jump", vc.eq(out3, state + dv))
 
 
 @obligation("C15", "prune", ensures=["O-C15-prune.keep", "O-C15-prune.drop", "O-C15-prune.nodup", "O-C15-prune.independent"], fns=[AB + "Agent.prunePropagateEvents"], mode="R",
